@@ -52,9 +52,8 @@ func runAliases(raw json.RawMessage) (interface{}, error) {
 	pf := map[string]interface{}{}
 	for _, tok := range reTokens(in.Text) {
 		if len(tok) <= 4096 {
-			pf[tok] = ratOf(tok)
-			if tr := strings.TrimSpace(tok); tr != tok && tr != "" {
-				pf[tr] = ratOf(tr)
+			for _, v := range trimVariants(tok) {
+				pf[v] = ratOf(v)
 			}
 		}
 	}
